@@ -68,7 +68,10 @@ def c_node(n):
         return "(NArray (mkArrayInst %s %s %s %s))" % (c_arr(n["arr"]), c_loc(n["loc"]), cbool(n["rh"]), cbool(n["rv"]))
     return "(NPort %s)" % cnat(n["inst"])
 def c_cells(cells):
-    return clist(["None" if c is None else "(Some (%s, %s))" % (cz(c["x"][0]), cz(c["y"][-1])) for c in cells])
+    # Cell::outline() takes the most abstract view: the abstract's outline when the cell has one
+    def oc(c):
+        return c.get("abs") or c
+    return clist(["None" if c is None else "(Some (%s, %s))" % (cz(oc(c)["x"][0]), cz(oc(c)["y"][-1])) for c in cells])
 
 NAME_RE = re.compile(r"^([ia])(\d+)((?:\[\d+\])*)$")
 def parse_name(s):
@@ -108,6 +111,13 @@ def rand_outline(rng, maxdim=20, lo=1):
 
 def rand_cells(rng, n, with_none=True):
     cells = [rand_outline(rng) for _ in range(n)]
+    # (fourth seeded wave, C09-m11) a cell with an abstract view as well, whose outline differs from the layout's, or abstract only:
+    # every size the placer reads must come from the same view (Cell::outline(): the abstract)
+    for k in range(n):
+        if rng.random() < 0.3:
+            cells[k] = dict(cells[k], abs=rand_outline(rng))
+            if rng.random() < 0.3:
+                cells[k]["layout"] = False
     if with_none:
         cells.append(None)
     return cells
